@@ -232,13 +232,14 @@ Apply(op, ps) ==
 (*   h  stateful: returns how many times it has been called (value taken   *)
 (*      from the observation, never predicted)                             *)
 (***************************************************************************)
-CustomNames == {"f", "p", "g", "h", "one", "zt", "zf"}
+CustomNames == {"f", "p", "g", "h", "one", "zt", "zf", "boom"}
 Custom(name, ps) ==
   CASE name = "one" -> I(1)                      \* zero-operand operator: pushes a value without popping any
     [] name = "zt" -> B(TRUE)                    \* zero-operand operators that can decide an and/or
     [] name = "zf" -> B(FALSE)
     [] name \in {"f", "p"} -> ps[1]
     [] name = "g" -> IF VEq(ps[1], I(2)) THEN E("op:g") ELSE ps[1]
+    [] name = "boom" -> IF VEq(ps[1], I(2)) THEN Panic("boom") ELSE ps[1]   \* a registered operator that panics
     [] OTHER -> E("other")
 
 ApplyAny(op, ps) == IF op \in CustomNames THEN Custom(op, ps) ELSE Apply(op, ps)
